@@ -31,6 +31,7 @@ class SW:
             self.it._const_cache[id(expr)] = (expr, {n: list(v) for n, v in sym.items()})
         sh = rat(0) if shift is None else shift
         self.prm_values = None      # {"A": number, "B": number}: concrete values for parameters given as a number
+        self.zero_prm = None        # name of a parameter that is exactly 0 for the first item of the first label dimension
         if grid == "unit":              # the concrete grid 0, 1, 2, ... (ages are numbers: a fixed lifetime's indicator is exactly 0 or 1)
             self.x = [rat(i) + sh for i in range(n_t)]
         elif grid == "equidistant":       # x0, x0+h, x0+2h, ...: every interval has the same (symbolic, positive) length
@@ -101,17 +102,21 @@ class SW:
             if shared and key.get("t") == 0:
                 return {"t": 0}
             return key
+        def value(key):
+            if self.zero_prm == name and self.labels and key.get(self.labels[0]) == 0:
+                return rat(0)           # e.g. no spread at all for one label: an exact zero next to generic values
+            return Rat.sym(self._pname(name, version, key), sign)
         data = []
         for idx in itertools.product(*[range(s) for s in sizes]):
             key = keyfix({l: i for l, i in zip(letters, idx)})
-            data.append(Rat.sym(self._pname(name, version, key), sign))
+            data.append(value(key))
         arr = self.it.construct(FA, [], dict(dims=ds, values=SArr(tuple(sizes), data), name=name))
 
         def at(m, l, _letters=letters, _n=name):
             key = {}
             for k in _letters:
                 key[k] = m if k == "t" else l[self.labels.index(k)]
-            return Rat.sym(self._pname(_n, version, keyfix(key)), sign)
+            return value(keyfix(key))
         return arr, at
 
     @staticmethod
